@@ -2322,6 +2322,10 @@ class AnsiStr(str):
         ''' Equal AnsiStr objects have equal string values; defining __eq__ alone would make this str unhashable '''
         return str.__hash__(self)
 
+    def __getnewargs__(self):
+        ''' copy / pickle rebuild the object from its internal AnsiString rather than by parsing the raw string value '''
+        return (self._s,)
+
     def __contains__(self, value:Union[str,'AnsiString','AnsiStr',Any]) -> bool:
         ''' Returns True iff the str or the underlying str of an AnsiString is in this AnsiString '''
         return self._s.__contains__(value)
